@@ -150,10 +150,15 @@ class Evaluator:
                 return ("bool", self.truth(self.ev(e["l"], env)) or self.truth(self.ev(e["r"], env)))
             if op in ("Eq", "Ne"):
                 l, r = self.ev(e["l"], env), self.ev(e["r"], env)
-                if l[0] == "sym" or r[0] == "sym":
-                    a, c = (l, r) if l[0] == "sym" else (r, l)
-                    eq = True if a == c else self.oracle((a[1], c))
+                if l[0] == "rec" and r[0] == "rec" and set(l[1]) == set(r[1]):
+                    eq = True
+                    for f in sorted(l[1]):
+                        eq = eq and self._values_equal(l[1][f], r[1][f])
+                        if not eq:
+                            break
                     return ("bool", eq if op == "Eq" else not eq)
+                if l[0] == "sym" or r[0] == "sym":
+                    return ("bool", self._values_equal(l, r) if op == "Eq" else not self._values_equal(l, r))
                 if l[0] in ("str", "int", "enum", "bool") and l[0] == r[0]:
                     eq = l[1] == r[1]
                     return ("bool", eq if op == "Eq" else not eq)
@@ -230,6 +235,16 @@ class Evaluator:
             raise Unrecognised("indexing outside a constant table")
         if k == "closure":
             return ("closure", e, env)
+        if k == "struct":
+            rec = {}
+            if "base" in e and isinstance(e["base"], dict):
+                bv = self.ev(e["base"], env)
+                if bv[0] != "rec":
+                    raise Unrecognised("struct update from a non-record value")
+                rec.update(bv[1])
+            for f in e.get("fields", []):
+                rec[f["name"]] = self.ev(f["e"], env)
+            return ("rec", rec)
         if k == "tuple" and not e["es"]:
             return ("unit",)
         if k == "tuple":
@@ -239,6 +254,8 @@ class Evaluator:
         if k in ("assign",):
             l = hir.simp(e["l"])
             v = self.ev(e["r"], env)
+            if self._store_field(l, v, env):
+                return ("unit",)
             key = l["name"] if l.get("k") == "local" else hir.place_str(l)
             if key is None:
                 raise Unrecognised("assignment to an untracked place")
@@ -253,6 +270,19 @@ class Evaluator:
                 env[key] = v
             self.stores.append((key, v))
             return ("unit",)
+        if k == "assignop":
+            name = (e.get("resolved") or e.get("callee") or e.get("op"))
+            for key in (name, e.get("op")):
+                if key in self.atoms:
+                    old = self.ev(e["l"], env)
+                    new = self.atoms[key]([old, self.ev(e["r"], env)])
+                    l = hir.simp(e["l"])
+                    if self._store_field(l, new, env):
+                        return ("unit",)
+                    if l.get("k") == "local":
+                        env.assign(l["name"], new) if isinstance(env, Env) else env.__setitem__(l["name"], new)
+                        return ("unit",)
+            raise Unrecognised(f"compound assignment {e.get('op')}")
         if k == "call":
             return self.call(e, env)
         import hirpp
@@ -314,6 +344,34 @@ class Evaluator:
             if p.get("t") == "str":
                 return v[0] == "str" and v[1] == p["v"]
         raise Unrecognised(f"pattern kind {k}")
+
+    def _values_equal(self, a, b):
+        if a == b:
+            return True
+        if a[0] == "sym" or b[0] == "sym":
+            x, y = (a, b) if a[0] == "sym" else (b, a)
+            return self.oracle((x[1], y))
+        if a[0] == "some" and b[0] == "some":
+            return self._values_equal(a[1], b[1])
+        return False
+
+    def _store_field(self, l, v, env):
+        """`base.f = v` where base is a local holding a record value: functional update of the record."""
+        l = hir.peel(l) if l.get("k") != "field" else l
+        if l.get("k") != "field":
+            return False
+        base = hir.peel(l["e"])
+        if base.get("k") == "local" and base["name"] in env and env[base["name"]][0] == "rec":
+            rec = dict(env[base["name"]][1])
+            rec[l["name"]] = v
+            new = ("rec", rec)
+            if isinstance(env, Env):
+                env.assign(base["name"], new)
+            else:
+                env[base["name"]] = new
+            self.stores.append((hir.place_str(l), v))
+            return True
+        return False
 
     def apply(self, clo, args):
         if clo[0] != "closure":
@@ -402,7 +460,7 @@ class Evaluator:
                     return self.apply(args[1], [r[1]]) if r[0] == "err" else r
         if short == "is_empty" and args and args[0][0] == "str":
             return ("bool", args[0][1] == "")
-        crate = cal.split("::")[0]
+        crate = cal.lstrip("<&").split("::")[0]
         if crate in self.inline_crates and cal in self.facts.crate(crate)["_bodies"]:
             return self.call_fn(crate, cal, args)
         raise Unrecognised(f"call to {cal}")
